@@ -21,6 +21,7 @@ class C07(Prop):
     id = "C07"
     trace_module = "TraceStab"
     trace_cfg = "TraceStab.cfg"
+    suite_family = ('stab', ('expect', 'overlap'))
     backends = ("py", "torch")
     chunk = 300
     assumptions = [
